@@ -1,6 +1,7 @@
 import MsiProofs.Lemmas.PoolCodec
 import MsiProofs.Lemmas.RowCodec
 import MsiModel.PkgApi
+import MsiProofs.Lemmas.Synced
 /-
 C01 — everything written is read back after close and reopen.
 Here: the layers of the round trip that are proved on the model — every storable cell is
@@ -8,8 +9,15 @@ read back from the bytes written for it (both reference widths; offset-binary in
 zero = null); the empty string is stored as null (the single value the format has for
 both); a flush writes summary and pool exactly when they changed and a second flush
 changes nothing (save is idempotent); the three ways of closing leave the same bytes on
-the medium.  The composition over whole histories (pool, catalog, property set) is tied by
-byte-exact correspondence and by the snapshot-before/after-reopen oracle on the real code.
+the medium; and the composition over whole histories: an invariant (`Synced`: whenever a
+"modified" flag is down, the summary / pool streams of the container decode to the in-memory
+summary / pool) that every API request preserves (`op_step`, `history`), that `open`
+establishes and a successful save re-establishes, giving `reopen_after_any_history`: after any
+history and a successful save, reopening yields the same container, summary information and
+string pool, hence the same rows for every table definition.  What remains tied only by
+byte-exact correspondence and by the snapshot-before/after-reopen oracle on the real code:
+that the catalog pass over the saved container returns the in-memory table definitions, and
+that reachable states are expressible in the format (`Savable`, a hypothesis at the save).
 -/
 namespace MsiProofs.C01
 open MsiModel MsiModel.Pkg
@@ -82,5 +90,34 @@ theorem close_modes_same_bytes (s : Pkg) : dropClose s = (flush s).1.cont := rfl
 /-- read operations leave the container and the pending-changes flags untouched (so a
 reopen point may sit between any two operations) -/
 theorem select_pure (s : Pkg) (q : Select) : ∃ r, selectExec s q = r := ⟨_, rfl⟩
+
+
+/-! ### whole histories -/
+open MsiProofs.Synced MsiProofs.SaveOpen
+
+/-- the invariant: flags down ⇒ streams decode to memory -/
+abbrev Synced := MsiProofs.Synced.Synced
+/-- `open` establishes it -/
+def open_synced := @MsiProofs.Synced.open_synced
+/-- every request preserves it (and keeps table streams apart from the metadata streams) -/
+def op_step := @MsiProofs.Synced.op_step
+def history := @MsiProofs.Synced.history
+/-- a successful save writes streams that decode to the in-memory summary and pool -/
+def finish_saved := @MsiProofs.SaveOpen.finish_saved_general
+def finish_step := @MsiProofs.Synced.finish_step
+/-- `open` on a saved container reads the summary and pool back -/
+def openCore_of_saved := @MsiProofs.SaveOpen.openCore_of_saved
+/-- **after any history and a successful save, reopening gives the same container, summary,
+string pool and rows** -/
+def reopen_after_any_history := @MsiProofs.Synced.reopen_after_any_history
+/-- table streams and user streams never are the metadata streams (under cfb's case-insensitive
+comparison) — the frame condition; it is *false* for tables named `_StringPool`/`_StringData`,
+which is how defect D22 was found -/
+def table_stream_notMeta := @MsiProofs.Synced.table_stream_notMeta
+def user_stream_notMeta := @MsiProofs.Synced.user_stream_notMeta
+
+/-- the frame condition really excludes the pool's names: their table streams ARE the pool streams -/
+example : StreamName.encode Gen.nameStringPool.toList true = sPool := rfl
+example : StreamName.encode Gen.nameStringData.toList true = sData := rfl
 
 end MsiProofs.C01
